@@ -2,7 +2,8 @@
 """Confirm the sub-agents' seeded changes in their scratch worktrees (/tmp/seed/CXX) and copy the
 confirmed ones to /verif/seeded/<id>/ (patch.diff, demo, notes.md, meta.json)."""
 import json, os, re, shutil, subprocess, sys
-SEED = "/tmp/seed"
+SEED = os.environ.get("SEED_DIR", "/tmp/seed")
+PREFIX = os.environ.get("SEED_PREFIX", "")
 OUT = "/verif/seeded"
 ENV = dict(os.environ, CARGO_NET_OFFLINE="true")
 
@@ -28,8 +29,8 @@ def main():
     os.makedirs(OUT, exist_ok=True)
     for prop in sorted(os.listdir(SEED)):
         w = os.path.join(SEED, prop)
-        for v in ("a", "b"):
-            sid = f"{prop}{v}"
+        for v in ("a", "b", "c"):
+            sid = f"{PREFIX}{prop}{v}"
             if only and sid not in only:
                 continue
             d = os.path.join(w, "_seed", v)
@@ -70,7 +71,7 @@ def main():
                             what=" ".join(l.strip() for l in first[:6])[:900],
                             needs_to_manifest=(re.search(r"(?is)needs[^\n]*manifest[^\n]*:?(.*?)(\n\n|\ncommands|\Z)", notes) or [None, ""])[1].strip()[:600],
                             manifests_in_configurations=res["manifests_in"],
-                            confirmed_by=dict(script="tools/confirm_seeds.py in the scratch worktree /tmp/seed/" + prop,
+                            confirmed_by=dict(script="tools/confirm_seeds.py in the scratch worktree " + w,
                                               applies=res["applies"], pinned_59_tests_pass_with_change=res["pinned_tests_pass"],
                                               builds_in_3_configurations=res["builds_3_configs"],
                                               demo_passes_without_change=True, demo_fails_with_change=True),
